@@ -20,7 +20,7 @@ PROPERTY = "C18"
 LEVEL = "exploration"
 RULE = (
     "n in 1..12 x chunksize {1,2,3,5,n-1,n,n+1} x source {data-frame proxy, HDF5 proxy, Parquet proxy with row "
-    "groups {1,2,4,n}, FITS proxy, logging random generator} x patch mode {centres, id column, generated, id column "
+    "groups {1,2,4,n, unequal, 2 with empty groups in between}, FITS proxy, logging random generator} x patch mode {centres, id column, generated, id column "
     "+ patch_num (ignored), centres + patch_num (ignored)}. Oracle on the request log: per pass the requested "
     "slices are consecutive, disjoint, each <= chunksize rows, their union is [0,n) exactly once; passes == 1, or 2 "
     "iff centres are generated; no request covers more than chunksize rows when n > chunksize; Parquet: row groups "
@@ -45,7 +45,7 @@ def cases(tier, seed):
             for mode in ("centres", "ids", "create", "ids+num", "centres+num"):
                 if mode == "create" and n < 4:
                     continue
-                for src in ("frame", "hdf", "fits", "pq1", "pq2", "pq4", "pqn", "pqu"):
+                for src in ("frame", "hdf", "fits", "pq1", "pq2", "pq4", "pqn", "pqu", "pqe"):
                     if tier == "quick" and src in ("pq1", "pq4") and mode not in ("centres", "create"):
                         continue
                     out.append(dict(n=n, chunksize=cs, source=src, mode=mode))
@@ -70,7 +70,7 @@ def cases(tier, seed):
         out.append(dict(n=n, chunksize=cs, source="frame", mode=mode, W=W))
     # one reader object used for several passes: an abandoned pass or a probe must not shift the next pass
     ops = ("peek", "break2", "pass", "probe")
-    for src, (n, cs) in itertools.product(("frame", "hdf", "fits", "pq2", "pqu"), ((5, 2), (7, 3), (4, 4))):
+    for src, (n, cs) in itertools.product(("frame", "hdf", "fits", "pq2", "pqu", "pqe"), ((5, 2), (7, 3), (4, 4))):
         for hl in range(0, 3 if tier == "quick" else 4):
             for hist in itertools.product(ops, repeat=hl):
                 out.append(dict(part="reader", source=src, n=n, chunksize=cs, hist=list(hist)))
@@ -552,17 +552,24 @@ def write_file(src, cols, d, n):
         from pyarrow import parquet
 
         p = os.path.join(d, "in.parquet")
-        if src == "pqu":  # unequal row groups, the first one the largest (files written by appending tables)
+        if src in ("pqu", "pqe"):
+            # pqu: unequal row groups, the first one the largest (files written by appending tables)
+            # pqe: row groups of 2 records with an empty group after each but the last (writers that flush empty batches)
             sizes, left = [], n
             first = max(1, (n + 1) // 2)
             while left > 0:
-                sizes.append(min(first if not sizes else 1 + len(sizes) % 2, left))
+                if src == "pqu":
+                    sizes.append(min(first if not sizes else 1 + len(sizes) % 2, left))
+                else:
+                    sizes.append(min(2, left))
                 left -= sizes[-1]
+                if src == "pqe" and left > 0:
+                    sizes.append(0)
             tab = pa.table(cols)
             with parquet.ParquetWriter(p, tab.schema) as wr:
                 start = 0
                 for sz in sizes:
-                    wr.write_table(tab.slice(start, sz), row_group_size=sz)
+                    wr.write_table(tab.slice(start, sz), **(dict(row_group_size=sz) if sz else {}))
                     start += sz
         else:
             rg = dict(pq1=1, pq2=2, pq4=4, pqn=max(n, 1))[src]
